@@ -243,7 +243,9 @@ def r3_msm(ctx: Context) -> None:
                   f"MSM {kind}-weighting return reached for {sorted(seen[kind]) or 'no'} moments only", f, f.node)
     # branch selection by the option value
     tests = [t for t in g.live if t.kind == "test"]
-    txt = " ".join(src(t.ast) for t in tests)
+    from ..poly import single_assignment_env as _sae
+    env_ = _sae(f.node)
+    txt = " ".join(src(env_.get(t.ast.id, t.ast)) if isinstance(t.ast, ast.Name) else src(t.ast) for t in tests)   # a test held in a local flag reads as its definition
     ctx.check("IDENTITY" in txt and "INVERSE_VARIANCE" in txt and "self._standardise_moments" in txt, "R3.msm", "MethodOfMomentsLoss.compute_loss_1d:option-tests",
               "branches are selected by covariance_mat and standardise_moments", "option tests changed", f, f.node)
 
